@@ -53,6 +53,51 @@ def scenario(repo, at="leader"):
                         "w1_executions": later}
 
 
+def scenario_discarded(repo):
+    """The same for the DISCARDED answer: a deposed leader holds uncommitted commands whose callbacks raise when told of
+    a failure (the `assert err == SUCCESS` style); the new leader commits other commands at those positions; when the
+    old leader applies them it tells its subscribers DISCARDED - from inside the apply loop."""
+    sim = Sim(repo, ["a", "b", "c"], seed=6)
+    sim.connect_all()
+    L = sim.elect()
+    assert L is not None
+    others = [v for v in sim.voters if v != L]
+    sim.submit(L, "w0")
+    sim.run(8)
+    for j in others:
+        sim.cut(L, j)
+    fired = []
+
+    def strict(res, err):
+        fired.append(err)
+        if err != 0:
+            raise RuntimeError("command failed: %r" % (err,))
+    for k in range(2):
+        sim._call(L, sim.objs[L].add, "lost%d" % k, callback=strict)
+    sim.tick(L, 0.0625)
+    N = None
+    for _ in range(300):
+        sim.run(1, among=others)
+        N = sim.leader(others)
+        if N is not None:
+            break
+    assert N is not None
+    sim.submit(N, "n0")
+    sim.submit(N, "n1")
+    sim.run(10, among=others)
+    for j in others:
+        sim.connect(L, j)
+    sim.run(30)
+    counts = dict((n, [x for (_, x) in sim.execs[n]].count("n0") + [x for (_, x) in sim.execs[n]].count("n1")) for n in sim.voters)
+    viols = []
+    if any(c != 2 for c in counts.values()) or len(set(tuple(sim.objs[n].log) for n in sim.voters)) != 1:
+        viols.append({"signature": SIG,
+                      "what": "deposed leader %s told the subscribers of its overwritten commands DISCARDED (callbacks raise on failure, "
+                              "called %s): the new leader's commands n0, n1 were executed %s times on the nodes (expected 2 everywhere), "
+                              "states %s" % (L, fired, counts, dict((n, list(sim.objs[n].log)[-4:]) for n in sim.voters))})
+    return sim, viols, {"at": "discarded", "who": L, "callback_calls": len(fired), "counts": counts}
+
+
 def scenario_snapshot(ctx):
     """The same callback, called from the snapshot install (the command's position is covered by the snapshot): a
     raising callback must not leave the install half done - the member set and the code version are set AFTER the
@@ -73,6 +118,9 @@ def run(ctx):
             viols += tag(v, "d68_raising_callback", {"at": at})
             if v:
                 break
+        if not viols:
+            sim, v, info = scenario_discarded(ctx.repo)
+            viols += tag(v, "d68_raising_callback", {"at": "discarded"})
     else:                                # C10: the member set after a snapshot install
         sim, v, info = scenario_snapshot(ctx)
         viols += tag(v, "d68_raising_callback", {"at": "snapshot"})
@@ -84,6 +132,9 @@ def run(ctx):
 
 def replay(ctx, violation):
     at = violation.get("replay", {}).get("at", "leader")
+    if at == "discarded":
+        sim, viols, info = scenario_discarded(ctx.repo)
+        return {"violated": bool(viols), "violations": viols, "info": info}
     if at == "snapshot":
         sim, viols, info = scenario_snapshot(ctx)
         return {"violated": bool(viols), "violations": viols, "info": info}
